@@ -445,7 +445,8 @@ def fill_rec(rec, cap, txt, job):
             waste_retail=float(ci["WASTE_RETAIL"]), NMONTHS=int(ci["NMONTHS"]),
             kg_meat_per_chicken=float(ci["KG_MEAT_PER_CHICKEN"]), kg_meat_per_pig=float(ci["KG_MEAT_PER_PIG"]),
             kg_meat_per_large_animal=float(job["options"].get("kg_meat_per_large_animal", 269.7)),
-            feed_kcals_year=float(ci["FEED_KCALS"]), biofuel_kcals_year=float(ci["BIOFUEL_KCALS"]))
+            feed_kcals_year=float(ci["FEED_KCALS"]), biofuel_kcals_year=float(ci["BIOFUEL_KCALS"]),
+            grass_ratio=[float(ci.get("RATIO_GRASSES_YEAR%d" % i, float("nan"))) for i in range(1, int(ci["NMONTHS"]) // 12 + 1)])
         rec["demand"] = dict(feed=fl(p1[4].kcals), biofuel=fl(p1[5].kcals))
     # herds -> rounds. The herd object whose results feed a round is identified by object identity with the
     # CalculateFeedAndMeat handed on by compute_parameters_*, never by order.
